@@ -96,6 +96,8 @@ def violation_for(src, base_out, base, ren, ref):
     if ref is not None and ref['exc'] != 'TIMEOUT':
         got = observe.run(code)
         d = observe.same(ref, got, compare_ns='rename_globals' not in on)
+        if d and 'UnboundLocalError' in (ref['exc'], got['exc']) and observe.inlining_quirk(src, out, 'rename_globals' not in on):
+            d = None    # CPython 3.12.1 comprehension-inlining quirk in the *original*; identical behaviour without inlining (3.11)
         if d:
             problems.append(('behaviour-differs', hdr + d))
     # one problem per kind is enough
